@@ -95,7 +95,7 @@ func NewStreamingDynamicCollector(max int, writer io.Writer) Collector {
 }
 
 func (c *streamingDynamicCollector) Reset() {
-	c.streamingCollector = newStreamingCollector(c.streamingCollector.maxSamples, c.output)
+	c.streamingCollector.Reset()
 	c.metricCount = 0
 	c.hash = ""
 }
@@ -107,21 +107,15 @@ func (c *streamingDynamicCollector) Add(in interface{}) error {
 	}
 
 	docHash, num := metricKeyHash(doc)
-	if c.hash == "" {
-		c.hash = docHash
-		c.metricCount = num
+	if c.hash == "" || c.metricCount != num || c.hash != docHash {
 		if c.streamingCollector.count > 0 {
 			if err := FlushCollector(c, c.output); err != nil {
 				return errors.WithStack(err)
 			}
 		}
-		return errors.WithStack(c.streamingCollector.Add(doc))
-	}
-
-	if c.metricCount != num || c.hash != docHash {
-		if err := FlushCollector(c, c.output); err != nil {
-			return errors.WithStack(err)
-		}
+		// flushing resets the recorded schema, so record the new one afterwards
+		c.hash = docHash
+		c.metricCount = num
 	}
 
 	return errors.WithStack(c.streamingCollector.Add(doc))
